@@ -14,7 +14,7 @@ Fixpoint notes_eqb (a b : list note) : bool :=
   match a, b with [], [] => true | x :: a', y :: b' => note_eqb x y && notes_eqb a' b' | _, _ => false end.
 Definition step_out_is (r : st * list note) (l : list note) : bool := notes_eqb (snd r) l.
 
-(* A live reconnector = not cancelled and with a pending timer.  At all times a host has at most one, and it is the one
+(* A live reconnector = not cancelled and pending (timer scheduled, or its connection attempt in flight).  At all times a host has at most one, and it is the one
    registered on the host (Host._reconnection_handler). *)
 Theorem C25_single_reconnector : forall kinds ns sc es r1 r2,
   let s := run (init kinds ns sc) es in
@@ -27,7 +27,8 @@ Qed.
 Print Assumptions C25_single_reconnector.
 
 (* A removed host has no registered and no live reconnector, _start_reconnector is a no-op for it (so it never gets one
-   again), and a stale timer of one of its old reconnectors does nothing when it fires: no connection attempt. *)
+   again), a stale timer of one of its old reconnectors does nothing when it fires (no connection attempt), and a
+   connection attempt that was in flight when the host was removed does nothing when it succeeds (no on_up / on_add). *)
 Theorem C25_removed_never_reconnected : forall kinds ns sc es h,
   let s := run (init kinds ns sc) es in
   present (hosts s h) = 2 ->
@@ -35,15 +36,19 @@ Theorem C25_removed_never_reconnected : forall kinds ns sc es h,
   (forall r, live s r -> rhost (recs s r) <> h) /\
   (forall a, start_reconnector s h a = s) /\
   (forall k r o, nth_error (timers s) k = Some r -> rhost (recs s r) = h ->
-                 step s (EReconnect k o) = (set_timers (set_out s []) (remove_nth k (timers s)), [])).
+                 step s (EReconnect k o) = (set_timers (set_out s []) (remove_nth k (timers s)), [])) /\
+  (forall j r, nth_error (probes s) j = Some r -> rhost (recs s r) = h ->
+               step s (EProbeFinish j OOk) = (set_probes (set_out s []) (remove_nth j (probes s)), [])).
 Proof.
   intros kinds ns sc es h s Hp. pose proof (J_run es _ (J_init kinds ns sc)) as HJ. fold s in HJ.
   destruct (removed_no_reconnector s h HJ Hp) as [H1 H2].
-  split; [exact H1 | split; [exact H2 | split]].
+  assert (HJ' : J (set_out s [])) by (eapply J_frame; [| exact HJ]; repeat split; auto).
+  split; [exact H1 | split; [exact H2 | split; [|split]]].
   - intros a. apply removed_start_noop; auto.
   - intros k r o Hk Hh. unfold step.
-    assert (HJ' : J (set_out s [])) by (eapply J_frame; [| exact HJ]; repeat split; auto).
     rewrite (removed_fire_noop (set_out s []) k r o HJ' Hk); [reflexivity | simpl; rewrite Hh; exact Hp].
+  - intros j r Hj Hh. unfold step.
+    rewrite (removed_probe_finish_noop (set_out s []) j r HJ' Hj); [reflexivity | simpl; rewrite Hh; exact Hp].
 Qed.
 Print Assumptions C25_removed_never_reconnected.
 
@@ -100,6 +105,9 @@ Print Assumptions C25_up_has_pools_refuted.
 (* hypotheses are satisfiable: a failed host with its single live reconnector; a removed host *)
 Example C25_nonvacuous_live : let s := run (init [1; 1] 2 None) [EFail 0; ERun 0 OOk] in
   live s 0 /\ rhost (recs s 0) = 0 /\ up (hosts s 0) = 0 /\ down_ok s 0 = true.
+Proof. vm_compute. repeat split; auto. Qed.
+Example C25_nonvacuous_inflight : let s := run (init [1] 1 None) [EFail 0; ERun 0 OOk; EProbeStart 0; ERemove 0] in
+  present (hosts s 0) = 2 /\ probes s = [0] /\ up (hosts (fst (step s (EProbeFinish 0 OOk))) 0) = 0.
 Proof. vm_compute. repeat split; auto. Qed.
 Example C25_nonvacuous_removed : let s := run (init [1; 1] 1 (Some 2)) [EFail 1; ERun 0 OOk; ERemove 1] in
   present (hosts s 1) = 2 /\ timers s = [0] /\ rcanc (recs s 0) = true.
